@@ -72,8 +72,8 @@ NAccepted == FoldLeft(LAMBDA acc, nd : acc + Cardinality({k \in DOMAIN nd.e : nd
 \* how much of the graph exercises the ledger (vacuity guard): states whose own commitments put
 \* value in flight for an approved hash / sit exactly on the bound
 SelfG(p) == [H |-> [c \in DOMAIN p.ch |-> p.ch[c].curH.htlcs], C |-> [c \in DOMAIN p.ch |-> p.ch[c].curC.htlcs]]
-InFlight(p) == \E h \in DOMAIN p.inv : p.inv[h].amt > 0 /\ GOut(SelfG(p), h) > 0
-OnBound(p)  == \E h \in DOMAIN p.inv : p.inv[h].amt > 0 /\ GOut(SelfG(p), h) > 0
+InFlight(p) == \E h \in DOMAIN p.inv : p.inv[h].amt >= 0 /\ GOut(SelfG(p), h) > 0
+OnBound(p)  == \E h \in DOMAIN p.inv : p.inv[h].amt >= 0 /\ GOut(SelfG(p), h) > 0
                   /\ GOut(SelfG(p), h) = GIn(SelfG(p), h) + p.inv[h].amt + K.fee
 Routed(p)   == \E h \in DOMAIN p.inv : GIn(SelfG(p), h) > 0 /\ GOut(SelfG(p), h) > 0
 Pending(p)  == \E c \in DOMAIN p.ch : p.ch[c].nextH.some /\ p.ch[c].nextH # p.ch[c].curH
